@@ -66,6 +66,9 @@ T = {
  "C11": (MC, "§6.11", "TLC enumerates every cell subset of the catalogue tissues x interior points x ne x replace_short_edges, runs the TLA+ transcription of generate_mesh twice and checks it against the declarative C11 verdict and Consistent; every instance is executed twice on the real generate_mesh (placements at positive, negative and mixed coordinates and far from the origin), judged by TLC against the same verdict and compared with the transcription; random Voronoi tissues (k <= 40), all shipped dumps and skeleton images are sampled.",
          "bounded to catalogue sub-tissues; thorough covers k <= 16 for all hexflower subsets and k = 40 for subsets of <= 3 cells",
          "TLA+ spec (Resample.tla D, MeshEdits.tla I) + TLC bounded-exhaustive enumeration replayed into generate_mesh + TLC trace validation (Trace_Resample)"),
+ "C20": (MC, "§6.20", "TLC enumerates all simple polygons with 3..5 vertices on a 4x4 grid (3..6 on 5x5 in thorough; simplicity decided in TLA+ by exact segment tests; both orientations, all cyclic shifts), checks the model-level identities, and every polygon is built as a real Cell under identity / translated / scaled / shifted / reversed variants and judged by TLC in exact integer arithmetic (area value and sign convention, reversal, shift, translation, scaling, perimeter between integer-sqrt bounds, next/previous navigation); every sub-tissue of small catalogue tissues for the tissue-level clauses (sum of |areas| = outline area, neighbours); random simple polygons up to 80 vertices.",
+         "exact on integer coordinates; zero-area polygons rejected for the navigation clauses; hole-free decided by TLC from the outline",
+         "TLA+ spec (CellGeom.tla) + TLC exhaustive polygon / sub-tissue enumeration replayed into the code + TLC trace validation"),
 }
 PENDING = "check not integrated yet (being built; see DESIGN.md Appendix D)"
 
